@@ -11,6 +11,7 @@ Case (driver "cut"):
    "resubmit": n  every session command's errback submits n further commands (a retry handler running
                   *during* connectionLost), "wd_reenter": the first when_disconnected() observer, while being
                   notified, requests notification again and submits a command,
+   "late_watch": bool   the callbacks of the session commands' Deferreds are attached only after the loss,
    "lose_in_cb": null | k  the reply handler of command k (mod) drops the connection and the loss is reported
                   synchronously, from inside dataReceived (as twisted's StringTransportWithDisconnection does)}
 Driver "allcuts": same without "cut"; runs the session once per byte offset 0..len(stream).
@@ -52,15 +53,17 @@ REASONS = {
 
 
 def sessions():
-    return st.builds(lambda c, s, r, pre, pc, pw, rs, wr, lic: {"cmds": c, "sched": s, "reason": r, "pre_wd": pre,
-                                                                "post_cmds": pc, "post_wd": pw, "resubmit": rs,
-                                                                "wd_reenter": wr, "lose_in_cb": lic},
+    return st.builds(lambda c, s, r, pre, pc, pw, rs, wr, lic, lw: {"cmds": c, "sched": s, "reason": r, "pre_wd": pre,
+                                                                    "post_cmds": pc, "post_wd": pw, "resubmit": rs,
+                                                                    "wd_reenter": wr, "lose_in_cb": lic,
+                                                                    "late_watch": lw},
                      st.lists(c01.commands(long=False, max_parts=3), min_size=0, max_size=5),
                      c01.schedules(),
                      st.sampled_from(["done", "lost", "other"]),
                      st.integers(0, 2), st.integers(0, 4), st.integers(0, 2),
                      st.sampled_from([0, 0, 1, 2]), st.booleans(),
-                     st.one_of(st.none(), st.none(), st.none(), st.integers(0, 4)))
+                     st.one_of(st.none(), st.none(), st.none(), st.integers(0, 4)),
+                     st.sampled_from([False, False, True]))
 
 
 @st.composite
@@ -70,6 +73,21 @@ def cut_cases(draw):
     s["cut"] = draw(st.one_of(st.integers(0, 600), st.integers(570, 1200), st.integers(570, 700),
                               st.integers(0, 3000)))
     return s
+
+
+class _LateWatch(Watch):
+    """A Watch that attaches its callbacks only when told to."""
+
+    def __init__(self, d):
+        self.name = None
+        self.passthrough = False
+        self.fired = 0
+        self.result = None
+        self.failure = None
+        self.d = d
+
+    def attach(self):
+        self.d.addCallbacks(self._ok, self._err)
 
 
 class _CutRun(object):
@@ -93,6 +111,7 @@ class _CutRun(object):
         self.resubmitted = 0
         self.lost_in_callback = False
         self.effective_cut = None
+        self.late = []
 
         self.srv = ScriptedServer(self._handler)
         self.pipe = ControlPipe(self.srv, auto=False)
@@ -197,7 +216,14 @@ class _CutRun(object):
                     self._submit({"kind": "plain", "text": "GETINFO version"}, self.post_watches, [])
                 return f
             d.addErrback(retry)
-        watches.append(Watch(d))
+        if self.case.get("late_watch") and watches is self.watches and not d.callbacks:
+            # the caller keeps the bare Deferred and attaches its callbacks only later (a batch of commands
+            # submitted first and awaited afterwards): nothing is attached when the loss happens
+            w = _LateWatch(d)
+            self.late.append(w)
+            watches.append(w)
+        else:
+            watches.append(Watch(d))
         if not self.lost:
             self.pipe.pump()
 
@@ -231,6 +257,8 @@ class _CutRun(object):
         if not self.lost:
             # the cut lies beyond the end of the stream: lose the idle connection
             self._lose()
+        for w in self.late:
+            w.attach()
         for i in range(self.case["post_cmds"]):
             self._submit({"kind": "plain" if i % 2 == 0 else "lines", "text": "GETINFO version"},
                          self.post_watches, [])
@@ -308,6 +336,8 @@ def _classify(res, r, case):
         res.label("request-from-inside-disconnect-notification")
     if r.lost_in_callback:
         res.label("loss-reported-from-inside-a-reply-callback")
+    if r.late:
+        res.label("callbacks-attached-only-after-the-loss")
     return (r.cut_inside_reply and r.queued_behind_at_cut >= 1) or submitted_after >= 2
 
 
